@@ -382,9 +382,7 @@ _N = [
     Nest("struct_member_bound", "TS", "E", "struct {int m[@];}", 1, 0),
     Nest("bitfield_width", "TS", "E", "struct {int m : @;}", 2, 0),
     Nest("enum_value", "TS", "E", "enum {e = @}", 2, 0),
-    # (hole TS, not TN: `_Atomic(int[2]) v;` escapes as AttributeError - C06's
-    # subject, and not valid C anyway)
-    Nest("atomic_type", "TS", "TS", "_Atomic(@)", 0, 0),
+    Nest("atomic_type", "TS", "TN", "_Atomic(@)", 0, 0),
     Nest("alignas_type", "TS", "TN", "_Alignas(@) int", 0, 0),
     Nest("alignas_expr", "TS", "E", "_Alignas(@) int", 2, 0),
     Nest("typename_bound", "TN", "E", "int[@]", 1, 0),
@@ -614,3 +612,13 @@ LEXER_FAMILIES = {
     "blank_run": lambda n: " " * n + "x",
     "newline_run": lambda n: "\n" * n + "x",
 }
+
+
+if __name__ == "__main__":  # --selfcheck: the measure is a function of the text
+    sys.path.insert(0, os.environ.get("VERIF_REPO", "/repo"))
+    for _t in ("int x;", nest_text(["paren"] * 8), nest_text(["cast", "struct_nest"] * 4),
+               repeat_text("stmt_switch", 16)):
+        _a, _b = measure(_t), measure(_t)
+        assert _a == _b and _a[0] == "ok", (_t, _a, _b)
+        print(_a[1], _t[:70])
+    print("selfcheck ok")
